@@ -53,6 +53,7 @@ class Core:
         self.got = bytearray()
         self.raw = bytearray()
         self.keystore = bytes((i * 3 + 1) & 0xFF for i in range(100))
+        self.resets = 0
 
     def shape(self, tag, flags, params):
         if tag in IN_TAGS:
@@ -70,7 +71,7 @@ class Core:
         if shape == "in":
             if tag == 0x15:
                 return len(self.keystore)
-            return params[1]
+            return params[1] if params[0] + params[1] <= len(self.mem) else 0
         if shape == "out":
             if tag == 0x08:
                 return params[0]
@@ -95,7 +96,7 @@ class Core:
             if tag == 0x07:
                 out.append(("resp", 0xA7, 0, self.props.get(params[0], [0]), True))
             else:
-                out.append(("resp", 0xAF, 0, [4, self.once.get(params[0], 0)], True))
+                out.append(("resp", 0xAF, 0, [4, self.once.get(params[0] & 0xFFFFFF, 0)], True))
         elif shape == "in":
             if tag == 0x15:
                 blob = self.keystore
@@ -117,13 +118,19 @@ class Core:
         return shape, ln, out
 
     def effect(self, tag, params):
-        if tag == 0x05:  # fill
+        inside = len(params) >= 2 and params[0] + params[1] <= len(self.mem) and params[1] <= 0x1000
+        if tag == 0x05 and inside:  # fill
             addr, ln, pat = params[0], params[1], params[2]
             self.mem[addr:addr + ln] = (struct.pack("<I", pat) * (ln // 4 + 1))[:ln]
-        elif tag == 0x02:
+        elif tag == 0x02 and inside:
             self.mem[params[0]:params[0] + params[1]] = b"\xff" * params[1]
-        elif tag == 0x0C:
+        elif tag == 0x0C and params[0] not in (1, 11):
             self.props[params[0]] = [params[1]]
+        elif tag == 0x0E:  # program once: bits are only ever set; bits 24..31 of the index are option flags
+            self.once[params[0] & 0xFFFFFF] = self.once.get(params[0] & 0xFFFFFF, 0) | params[2]
+        elif tag == 0x0B:  # reset: the device starts over
+            self.dataout = None
+            self.resets += 1
 
     def on_data(self, payload):
         if not self.dataout:
@@ -296,7 +303,8 @@ class Twin:
             self.on_data(pl, True)
 
     def on_cmd(self, pl, ok):
-        tag, flags, _, n = struct.unpack("<4B", pl[:4])
+        tag, flags, rsv, n = struct.unpack("<4B", pl[:4])
+        n = min(n, (len(pl) - 4) // 4)
         params = list(struct.unpack(f"<{n}I", pl[4:4 + 4 * n]))
         status = 0
         self.ncmd += 1
@@ -305,7 +313,8 @@ class Twin:
         in_data_phase = self.core.dataout is not None
         shape, ln, out = self.core.on_cmd(tag, flags, params, status)
         self.trace.append({"ev": "h2d", "kind": "cmd", "tag": tag, "crcOk": ok, "shape": shape, "len": ln,
-                           "chunks": (ln + self.mps - 1) // self.mps if shape in ("in", "out") else 0, "n": 0, "inData": in_data_phase})
+                           "chunks": (ln + self.mps - 1) // self.mps if shape in ("in", "out") else 0, "n": 0, "inData": in_data_phase,
+                           "flags": flags, "rsv": rsv + (0 if 4 + 4 * n == len(pl) else 1000), "params": [W(x) for x in params]})
         if self.transport == "serial":
             self.emit("ack")
         if status != 0:
@@ -332,15 +341,36 @@ class Twin:
 
 
 # ------------------------------------------------------------------ operations
+def W(v):
+    """32-bit word -> [hi16, lo16] (TLC integers are 32-bit)."""
+    v &= 0xFFFFFFFF
+    return [v >> 16, v & 0xFFFF]
+
+
+WORDS = [0, 1, 0xFF, 0x100, 0xFFFF, 0x10000, 0xFFFFFF, 0x1000000, 0x1000011, 0x7FFFFFFF, 0x80000000, 0xA5A5A5A5, 0xFFFFFFFF]
+MEMS = [0, 0, 1, 9, 0x100, 0x110, 0x120]            # 1..255: mapped external memories (travel as 0), >= 0x100: unmapped ones
+FUSE_IDX = [0, 3, 0x11, 7, 0xFFFFFF, 0x1000011, 0x1000003, 0x80000005, 0xFF000007]
+
+# name: (shape, tag of the LAST command of the operation, argument kinds in API order)
+#   kinds: addr (inside the twin's memory), len (the job's length), word, mem, memraw (memory id that is not translated), idx (fuse index with option flags),
+#          prop / propval, small, key8 / data4 / data8 (short data that travels inside the command packet), data (the data-phase payload)
 OPS = {
-    # name: (shape, tag)
-    "flash_erase_region": ("cmd", 0x02), "fill_memory": ("cmd", 0x05), "set_property": ("cmd", 0x0C), "call": ("cmd", 0x0A),
-    "configure_memory": ("cmd", 0x11), "flash_erase_all": ("cmd", 0x01),
-    "get_property": ("value", 0x07), "flash_read_once": ("value", 0x0F),
-    "read_memory": ("in", 0x03), "flash_read_resource": ("in", 0x10), "fuse_read": ("in", 0x17), "kp_read_key_store": ("in", 0x15),
-    "write_memory": ("out", 0x04), "receive_sb_file": ("out", 0x08), "fuse_program": ("out", 0x14), "kp_set_user_key": ("out", 0x15),
-    "kp_write_key_store": ("out", 0x15),
-    "load_image": ("raw", 0),
+    "flash_erase_all": ("cmd", 0x01, ["memraw"]), "flash_erase_region": ("cmd", 0x02, ["word", "word", "mem"]),
+    "fill_memory": ("cmd", 0x05, ["word", "word", "word"]), "flash_security_disable": ("cmd", 0x06, ["key8"]),
+    "execute": ("cmd", 0x09, ["word", "word", "word"]), "call": ("cmd", 0x0A, ["word", "word"]), "reset": ("cmd", 0x0B, []),
+    "set_property": ("cmd", 0x0C, ["propset", "word"]), "flash_erase_all_unsecure": ("cmd", 0x0D, []),
+    "flash_program_once": ("cmd", 0x0E, ["idx", "data48"]), "efuse_program_once": ("cmd", 0x0E, ["idx", "word"]),
+    "efuse_program_once_verify": ("value", 0x0F, ["idx", "word"]),
+    "configure_memory": ("cmd", 0x11, ["word", "memraw"]), "reliable_update": ("cmd", 0x12, ["word"]),
+    "kp_enroll": ("cmd", 0x15, []), "kp_set_intrinsic_key": ("cmd", 0x15, ["small", "small"]),
+    "kp_write_nonvolatile": ("cmd", 0x15, ["memraw"]), "kp_read_nonvolatile": ("cmd", 0x15, ["memraw"]),
+    "update_life_cycle": ("cmd", 0x18, ["small"]),
+    "get_property": ("value", 0x07, ["prop", "small"]), "flash_read_once": ("value", 0x0F, ["idx", "four"]), "efuse_read_once": ("value", 0x0F, ["idx"]),
+    "read_memory": ("in", 0x03, ["addr", "len", "mem"]), "flash_read_resource": ("in", 0x10, ["addr", "len", "small"]),
+    "fuse_read": ("in", 0x17, ["addr", "len", "mem"]), "kp_read_key_store": ("in", 0x15, []),
+    "write_memory": ("out", 0x04, ["addr", "data", "mem"]), "receive_sb_file": ("out", 0x08, ["data"]), "fuse_program": ("out", 0x14, ["addr", "data", "mem"]),
+    "kp_set_user_key": ("out", 0x15, ["small", "data"]), "kp_write_key_store": ("out", 0x15, ["data"]),
+    "load_image": ("raw", 0, ["data"]),
 }
 
 
@@ -348,80 +378,97 @@ def payload(n, salt):
     return bytes((i * 5 + 1 + salt) & 0xFF for i in range(n))
 
 
-def do_call(mb, twin, op, length, salt):
+def make_args(op, length, salt, r):
+    """Concrete arguments of one call (API order) from the value classes."""
+    vals = []
+    for k in OPS[op][2]:
+        if k == "addr":
+            vals.append(r.choice([0x100, 0x400, 0x600, 0x4000, 0x5000, r.randrange(0, 0x6000), r.randrange(0, 0x6000) & ~3]))
+        elif k == "len":
+            vals.append(length)
+        elif k == "word":
+            vals.append(r.choice(WORDS + [r.getrandbits(32)]))
+        elif k == "mem":
+            vals.append(r.choice(MEMS))
+        elif k == "memraw":
+            vals.append(r.choice([0, 0, 1, 9, 0x100, 0x110]))
+        elif k == "idx":
+            vals.append(r.choice(FUSE_IDX))
+        elif k == "prop":
+            vals.append(r.choice([1, 1, 7, 12, 11]))
+        elif k == "propset":
+            vals.append(r.choice([10, 22, 0x16, 30]))
+        elif k == "small":
+            vals.append(r.choice([0, 1, 2, 3, 7, 0x40, 0xFF]))
+        elif k == "four":
+            vals.append(4)
+        elif k == "key8":
+            vals.append(bytes(r.randrange(256) for _ in range(8)))
+        elif k == "data48":
+            vals.append(bytes(r.randrange(256) for _ in range(r.choice([4, 8]))))
+        elif k == "data":
+            vals.append(payload(length, salt))
+        else:
+            raise Machinery(f"unknown argument kind {k}")
+    return vals
+
+
+def do_call(mb, twin, op, length, salt, r=None):
     """Perform one API call; returns (call event, result event)."""
     from spsdk.exceptions import SPSDKError
 
-    shape, tag = OPS[op]
+    shape, tag, kinds = OPS[op]
     if op == "flash_read_resource":
         length = (length + 3) // 4 * 4  # the API documents 4-byte alignment
     core = twin.core
-    data = payload(length, salt)
-    call = {"ev": "call", "op": op, "shape": shape, "tag": tag, "len": length if shape in ("in", "out", "raw") else 0, "mps": twin.mps}
+    A = make_args(op, length, salt, r or rng(PROP, "args", op, length, salt))
+    ints = [x for x in A if isinstance(x, int)]
+    blobs = [x for x in A if isinstance(x, bytes)]
+    data = blobs[0] if blobs else b""
+    inline = bool(blobs) and not any(k == "data" for k in kinds)            # short data inside the command packet
+    call = {"ev": "call", "op": op, "shape": shape, "tag": tag, "len": length if shape in ("in", "out", "raw") else 0, "mps": twin.mps,
+            "args": [W(x) for x in ints], "dl": W(len(data)), "db": list(data) if inline else []}
     if op == "kp_read_key_store":
         call["len"] = len(core.keystore)
     res = {"ev": "result", "kind": "ret", "val": "fail", "status": 0, "reads": 0, "documented": True, "dataExact": False, "dataLen": 0,
            "devGotExact": False, "devBytes": 0, "valuesExact": False, "exc": "none"}
     reads0 = twin.reads
+    want = b""
     try:
-        r = None
-        if op == "flash_erase_region":
-            r = mb.flash_erase_region(0x1000, 0x100)
-        elif op == "flash_erase_all":
-            r = mb.flash_erase_all()
-        elif op == "fill_memory":
-            r = mb.fill_memory(0x2000, 0x40, 0xA5A5A5A5)
-        elif op == "set_property":
-            r = mb.set_property(10, 1)
-        elif op == "call":
-            r = mb.call(0x3000, 7)
-        elif op == "configure_memory":
-            r = mb.configure_memory(0x2000, 9)
-        elif op == "get_property":
-            r = mb.get_property(1)
-            res["valuesExact"] = r == core.props[1]
-        elif op == "flash_read_once":
-            r = mb.flash_read_once(3, 4)
-            res["valuesExact"] = r == struct.pack("<I", core.once[3])
-        elif op == "read_memory":
-            want = bytes(core.mem[0x100:0x100 + length])
-            r = mb.read_memory(0x100, length)
-        elif op == "flash_read_resource":
-            want = bytes(core.mem[0x400:0x400 + length])
-            r = mb.flash_read_resource(0x400, length)
-        elif op == "fuse_read":
-            want = bytes(core.mem[0x600:0x600 + length])
-            r = mb.fuse_read(0x600, length)
-        elif op == "kp_read_key_store":
+        if shape == "in" and op != "kp_read_key_store":
+            want = bytes(core.mem[A[0]:A[0] + length])
+        if op == "kp_read_key_store":
             want = core.keystore
-            r = mb.kp_read_key_store()
-        elif op == "write_memory":
-            r = mb.write_memory(0x4000, data)
-        elif op == "receive_sb_file":
-            r = mb.receive_sb_file(data)
-        elif op == "fuse_program":
-            r = mb.fuse_program(0x5000, data)
-        elif op == "kp_set_user_key":
-            r = mb.kp_set_user_key(3, data)
-        elif op == "kp_write_key_store":
-            r = mb.kp_write_key_store(data)
-        elif op == "load_image":
-            r = mb.load_image(data)
+        if op == "efuse_program_once_verify":
+            r_ = mb.efuse_program_once(A[0], A[1], verify=True)
+        elif op == "reset":
+            r_ = mb.reset(timeout=0, reopen=True)
+        else:
+            r_ = getattr(mb, op)(*A)
         if shape == "in":
-            if r is None:
+            if r_ is None:
                 res["val"] = "none"
             else:
                 res["val"] = "data"
-                res["dataExact"] = bytes(r) == want[:len(r)] and len(r) <= len(want)
-                res["dataLen"] = len(r)
-                if len(r) != len(want):
-                    res["dataExact"] = res["dataExact"] and False if len(r) > len(want) else res["dataExact"]
+                res["dataExact"] = bytes(r_) == want[:len(r_)] and len(r_) <= len(want)
+                res["dataLen"] = len(r_)
         elif shape == "value":
-            res["val"] = "values" if r is not None else "none"
+            if op == "get_property":
+                res["val"] = "values" if r_ is not None else "none"
+                res["valuesExact"] = r_ == core.props.get(A[0], [0])
+            elif op == "flash_read_once":
+                res["val"] = "values" if r_ is not None else "none"
+                res["valuesExact"] = r_ == struct.pack("<I", core.once.get(A[0] & 0xFFFFFF, 0))
+            elif op == "efuse_read_once":
+                res["val"] = "values" if r_ is not None else "none"
+                res["valuesExact"] = r_ == core.once.get(A[0] & 0xFFFFFF, 0)
+            else:  # efuse_program_once_verify: boolean outcome of a two-command operation
+                res["val"] = "values" if r_ is True else "fail"
+                res["valuesExact"] = r_ is True and core.once.get(A[0] & 0xFFFFFF, 0) & A[1] == A[1]
         else:
-            res["val"] = "ok" if r is True else "fail"
+            res["val"] = "ok" if r_ is True else "fail"
         if shape == "out":
-            addr = 0x4000 if op == "write_memory" else 0x5000 if op == "fuse_program" else 0x8000
+            addr = A[0] if op in ("write_memory", "fuse_program") else 0x8000
             res["devGotExact"] = bytes(core.mem[addr:addr + length]) == data and bytes(core.got) == data
             res["devBytes"] = len(core.got)
         if shape == "raw":
@@ -466,7 +513,7 @@ def run_history(job):
                 twin.dev_error = (twin.ncmd + dev_error[0], dev_error[1])
         twin.trace = []
         twin.expect_cmd_data = False
-        call, res = do_call(mb, twin, op, length, i)
+        call, res = do_call(mb, twin, op, length, i, rng(PROP, "args", jid, i))
         evs.append(call)
         evs.extend(twin.trace)
         evs.append(res)
@@ -482,7 +529,8 @@ def norm(e):
          "devStatus": int(e.get("devStatus", 0)), "final": bool(e.get("final", False)), "val": e.get("val", "none"), "reads": int(e.get("reads", 0)),
          "documented": bool(e.get("documented", True)), "dataExact": bool(e.get("dataExact", False)), "dataLen": int(e.get("dataLen", 0)),
          "devGotExact": bool(e.get("devGotExact", False)), "devBytes": int(e.get("devBytes", 0)), "valuesExact": bool(e.get("valuesExact", False)),
-         "exc": e.get("exc", "none")}
+         "exc": e.get("exc", "none"), "args": e.get("args", []), "dl": e.get("dl", [0, 0]), "db": e.get("db", []), "flags": int(e.get("flags", 0)),
+         "rsv": int(e.get("rsv", 0)), "params": e.get("params", [])}
     return d
 
 
@@ -502,8 +550,8 @@ def key_of(t, matched):
             out = "fails-without-fault"
         else:
             out = "contract"
-        return f"C10/{t['transport']}/{last['shape']}/{'+'.join(faults)}/{out}"
-    return f"C10/{t['transport']}/{last['shape']}/{'+'.join(faults)}/wire:{e['ev']}:{e['kind']}"
+        return f"C10/{t['transport']}/{last['shape']}:{last['op']}/{'+'.join(faults)}/{out}"
+    return f"C10/{t['transport']}/{last['shape']}:{last['op']}/{'+'.join(faults)}/wire:{e['ev']}:{e['kind']}"
 
 
 def run(tier):
@@ -530,10 +578,7 @@ def run(tier):
 
     jobs = []
     mps_menu = [32, 64] if tier == "quick" else [32, 64, 200]
-    ops_by_shape = {"cmd": ["flash_erase_region", "fill_memory", "set_property", "call", "configure_memory", "flash_erase_all"],
-                    "value": ["get_property", "flash_read_once"],
-                    "in": ["read_memory", "flash_read_resource", "fuse_read"],
-                    "out": ["write_memory", "receive_sb_file", "fuse_program", "kp_set_user_key", "kp_write_key_store"]}
+    ops_by_shape = {sh: [op for op, spec in OPS.items() if spec[0] == sh and op != "kp_read_key_store"] for sh in ("cmd", "value", "in", "out")}
     jid = 0
     # fault-free histories: every op alone on a fresh object (packet size not cached) and after others; all length classes
     for transport in ("serial", "hid"):
@@ -543,8 +588,9 @@ def run(tier):
                     lens = [0] if shape in ("cmd", "value") else [1, mps - 1, mps, mps + 1, 3 * mps + 5] + ([0] if op in ("read_memory",) else [])
                     for ln in lens:
                         for preset in (False, True):
-                            jid += 1
-                            jobs.append((f"nf-{jid}", transport, mps, [(op, ln)], None, None, preset))
+                            for _rep in range(4 if shape in ("cmd", "value") else 1):      # several draws from the argument value classes
+                                jid += 1
+                                jobs.append((f"nf-{jid}", transport, mps, [(op, ln)], None, None, preset))
             for ln in (1, mps, 2 * mps + 3):
                 jid += 1
                 jobs.append((f"nf-{jid}", transport, mps, [("load_image", ln)], None, None, True))
@@ -567,7 +613,7 @@ def run(tier):
                 continue
             mps = r.choice(mps_menu)
             ops = ops_by_shape["cmd" if shape == "cmd" else shape]
-            for op in (ops if tier == "thorough" else r.sample(ops, min(2, len(ops)))):
+            for op in (ops if tier == "thorough" else r.sample(ops, min(2, len(ops))) + (["reset"] if shape == "cmd" else [])):
                 ln = 0 if shape == "cmd" else r.choice([n * mps, n * mps - r.randrange(1, mps)])
                 if shape != "cmd" and ln <= 0:
                     continue
@@ -633,13 +679,20 @@ def run(tier):
                     {"job": t["job"], "events": t["ev"][max(0, matched - 10):matched + 1]})
 
     sdp_part(v, tier, r)
-    v.cov["rule"] = ("mboot: fault-free histories = every operation family x length class {0,1,mps-1,mps,mps+1,3mps+5} x packet sizes x both transports x packet size "
+    v.cov["operations"] = sorted(OPS)
+    v.cov["rule"] = ("mboot: command layer = every driven operation with arguments from boundary value classes, the packets that reached the device compared with "
+                     "MbootCmds.tla (tag, flags, parameter words, order); fault-free histories = every operation family x length class {0,1,mps-1,mps,mps+1,3mps+5} x packet sizes x both transports x packet size "
                      "cached or not + random multi-call histories; faulty = every fault class TLC reaches in Mboot.tla (shape, packets, kind, frame position) x "
                      "concrete operations x byte/bit positions; SDP: operations x response scripts incl. short reads; distinct by job description")
     v.assumptions += ["USB-HID has no integrity check: payload corruption on HID is not a listed fault (only report id / length / missing / truncated report, error status)",
                       "faults are finite; the device stub honours the DeviceBase contract (>= 1 byte or a time-out exception)",
                       "a call is unbounded if it needs more than 3000 device reads",
-                      "generate_key_blob, trust-provisioning and EdgeLock commands are not driven"]
+                      "generate_key_blob, trust-provisioning, EdgeLock, WPC and DSC-HSM commands are not driven; read_memory is driven in its single-command form "
+                      "(the per-packet USB work-around needs a real UsbDevice)",
+                      "Reset: a device that falls silent after the command (response lost or cut, device gone before its ACK) counts as restarted - SPSDK's documented "
+                      "tolerance; an explicit NAK does not",
+                      "a fault inside the read-only packet-size query in front of a data phase need not end the call (the host may go on with the default size)",
+                      "memory ids 1..255 (mapped external memories) travel as 0 in the region commands, as blhost documents"]
     return v.finish()
 
 
